@@ -121,6 +121,43 @@ func checkTwinComparison(c *Ctx, rule3, rule4 string, twin *ssa.Function, kBad i
 		}
 		c.OK(rule3, shortFn(twin)+": compares "+strings.Join(fields, ",")+" of both rules", twin.Pos(), "same field on both operands")
 	}
+	// a pointer comparison next to a deep comparison of the same two values is a shortcut for it
+	// (identical pointers are deeply equal); alone it compares by identity, which no two parsed
+	// rules ever satisfy
+	var ax Ref = True
+	for _, e := range u.AtomsOf(H) {
+		if e.Op != "eq" || e.Args[0].Typ == nil {
+			continue
+		}
+		if _, isPtr := e.Args[0].Typ.Underlying().(*types.Pointer); !isPtr {
+			continue
+		}
+		if e.Args[0].IsNil() || e.Args[1].IsNil() {
+			continue
+		}
+		var deep *E
+		for _, d := range u.AtomsOf(H) {
+			if d.Op != "call" || len(d.Args) != 2 {
+				continue
+			}
+			a0, a1 := d.Args[0], d.Args[1]
+			for a0.Op == "mkiface" {
+				a0 = a0.Args[0]
+			}
+			for a1.Op == "mkiface" {
+				a1 = a1.Args[0]
+			}
+			if (a0 == e.Args[0] && a1 == e.Args[1]) || (a0 == e.Args[1] && a1 == e.Args[0]) {
+				deep = d
+			}
+		}
+		if deep == nil {
+			c.Fail(rule3, shortFn(twin)+": comparison "+clip(u.Show(e), 120), twin.Pos(), "the values are compared by pointer identity only: two separately parsed rules never share the object, so the twin of a rule with this modifier is never recognised")
+			continue
+		}
+		ax = u.bdd.And(ax, u.bdd.Imp(u.Atom(e), u.Atom(deep)))
+		all = u.bdd.Exists(all, u.atomIx[e.key])
+	}
 	for name, ats := range boolFields {
 		if len(ats) == 2 {
 			all = u.bdd.And(all, u.bdd.Iff(u.Atom(ats[0]), u.Atom(ats[1])))
@@ -129,7 +166,7 @@ func checkTwinComparison(c *Ctx, rule3, rule4 string, twin *ssa.Function, kBad i
 		}
 	}
 	// conjunction: true iff every comparison holds
-	c.Check(H == all, rule3, shortFn(twin)+": conjunction of all comparisons", twin.Pos(),
+	c.Check(u.bdd.And(H, ax) == u.bdd.And(all, ax), rule3, shortFn(twin)+": conjunction of all comparisons", twin.Pos(),
 		"returns true exactly when the receiver has the badfilter option and every field comparison holds",
 		"the result is not the conjunction of the field comparisons (some comparison has the wrong polarity or is bypassed)")
 
